@@ -63,6 +63,8 @@ structure HCfg where
   pubName  : String          -- StructName(publisher)
   mwOut    : Nat             -- messages the handler's own middleware appends to what the function returns
   fnMute   : Bool            -- AddNoPublisherHandler: the function has type `func(msg) error`, it cannot return messages
+  nilPub   : Bool            -- registered with AddHandler(…, nil publisher, …): `h.publisher == nil` (AddNoPublisherHandler
+                             -- gives the handler the router's `disabledPublisher{}` instead, which is an object)
   deriving DecidableEq, Repr, Inhabited
 
 /-- `handler.addHandlerContext` on one message context -/
@@ -225,10 +227,13 @@ inductive ROp
 
 /-- one handler in `RunHandlers`: `if h.started { continue }`; otherwise `decorateHandlerPublisher` (first added =
     outermost = first on the way out) and `decorateHandlerSubscriber` (first added = innermost = first on the way in),
-    on top of whatever the handler's publisher / subscriber already is -/
+    on top of whatever the handler's publisher / subscriber already is.  `decorateHandlerPublisher` begins with
+    `if h.publisher == nil { return nil }`: a handler without a publisher has nothing to decorate and keeps its nil
+    publisher (a decorator wrapping nil would make it look like it had one) -/
 def startRH (s : RSt) (h : RH) : RH :=
   if h.started then h
-  else { h with started := true, pubPath := s.pd ++ h.pubPath, subPath := h.subPath ++ s.sd }
+  else { h with started := true, pubPath := if h.cfg.nilPub then h.pubPath else s.pd ++ h.pubPath,
+                subPath := h.subPath ++ s.sd }
 
 def rstep (s : RSt) : ROp → RSt
   | .addHandler h => { s with hs := s.hs ++ [⟨h, false, [], []⟩] }
